@@ -1,6 +1,7 @@
 package c07
 
 import (
+	"encoding/binary"
 	"encoding/json"
 	"fmt"
 	"os"
@@ -9,6 +10,7 @@ import (
 	"sync"
 	"testing"
 
+	"golang.org/x/crypto/sha3"
 	"verifharness/ev"
 	"verifharness/pu"
 )
@@ -83,4 +85,127 @@ func sanitize(s string) string {
 		}
 	}
 	return string(o)
+}
+
+// TestHuntChallenge is a tool like TestHunt: it searches 32-byte challenge seeds whose expansion into the sparse
+// challenge polynomial consumes unusually MANY bytes of the SHAKE-256 stream (many rejected position bytes; the
+// average is about 75, every byte beyond that is rarer by a factor of roughly two). An implementation that squeezes a
+// fixed number of bytes and mishandles the refill misbehaves only on such seeds - and they can be found offline by
+// anyone, then placed in the first 32 bytes of a signature. The seeds are saved as regress inputs for TestSamplers
+// (C07) and, spliced into an honest signature, for the hostile-input check (C14) and the rejection check (C05).
+// Only SHAKE-256 and the specification's sampling loop are consulted while hunting.
+func TestHuntChallenge(t *testing.T) {
+	dir := os.Getenv("VERIF_HUNT_DIR")
+	if dir == "" {
+		t.Skip("VERIF_HUNT_DIR not set")
+	}
+	n, _ := strconv.Atoi(os.Getenv("VERIF_HUNT_N"))
+	if n == 0 {
+		n = 400_000_000
+	}
+	least, _ := strconv.Atoi(os.Getenv("VERIF_HUNT_LEAST"))
+	if least == 0 {
+		least = 97
+	}
+	type hit struct {
+		seed     []byte
+		consumed int
+	}
+	var mu sync.Mutex
+	var hits []hit
+	var wg sync.WaitGroup
+	const workers = 16
+	for w := 0; w < workers; w++ {
+		wg.Add(1)
+		go func(w int) {
+			defer wg.Done()
+			seed := pu.DetBytes(uint64(w)+777, 32)
+			var buf [136]byte
+			h := sha3.NewShake256()
+			for i := w; i < n; i += workers {
+				binary.LittleEndian.PutUint64(seed, uint64(i))
+				h.Reset()
+				h.Write(seed)
+				h.Read(buf[:])
+				pos := 8
+				for c := 256 - 60; c < 256 && pos < len(buf); c++ {
+					for pos < len(buf) {
+						b := int(buf[pos])
+						pos++
+						if b <= c {
+							break
+						}
+					}
+				}
+				if pos >= least {
+					mu.Lock()
+					hits = append(hits, hit{append([]byte{}, seed...), pos})
+					mu.Unlock()
+				}
+			}
+		}(w)
+	}
+	wg.Wait()
+	os.MkdirAll(dir, 0o755)
+	byCount := map[int]int{}
+	for _, h := range hits {
+		byCount[h.consumed]++
+		if byCount[h.consumed] > 12 {
+			continue
+		}
+		rep := ev.Replay{Property: prop, Test: "TestSamplers", Key: "challenge/stream-bytes-" + strconv.Itoa(h.consumed), Message: fmt.Sprintf("regress input: challenge seed whose expansion consumes %d stream bytes", h.consumed)}
+		rep.Case, _ = json.Marshal(map[string]any{"kind": "polyChallenge", "seed": pu.HB(h.seed)})
+		b, _ := json.MarshalIndent(rep, "", " ")
+		os.WriteFile(filepath.Join(dir, fmt.Sprintf("challenge-%03d-bytes-%x.json", h.consumed, h.seed[:8])), b, 0o644)
+	}
+	t.Logf("hunt result (stream bytes consumed -> seeds found): %v", byCount)
+}
+
+// TestHuntKeys is a tool like TestHunt: it searches seeds whose REFERENCE key generation passes through a rare
+// arithmetic corner (a coefficient of t exactly 0 or q-1, a sum A*s1+s2 that wraps around 0 or q) and saves them as
+// regress inputs for TestKeyGenSign. About one key in a thousand has such a coefficient.
+func TestHuntKeys(t *testing.T) {
+	dir := os.Getenv("VERIF_HUNT_DIR")
+	if dir == "" {
+		t.Skip("VERIF_HUNT_DIR not set")
+	}
+	n, _ := strconv.Atoi(os.Getenv("VERIF_HUNT_N"))
+	if n == 0 {
+		n = 200000
+	}
+	per, _ := strconv.Atoi(os.Getenv("VERIF_HUNT_PER_KIND"))
+	if per == 0 {
+		per = 25
+	}
+	os.MkdirAll(dir, 0o755)
+	var mu sync.Mutex
+	found := map[string]int{}
+	var wg sync.WaitGroup
+	const workers = 16
+	for w := 0; w < workers; w++ {
+		wg.Add(1)
+		go func(w int) {
+			defer wg.Done()
+			for i := w; i < n; i += workers {
+				seed := pu.DetBytes(uint64(i)*2654435761+4242, 48)
+				k := pu.DilRef(seed)
+				for _, e := range pu.KeyEvents(k) {
+					if e == "t-rounding-tie" || e == "t1-largest" {
+						continue // common: every random run meets them
+					}
+					mu.Lock()
+					if found[e] < per {
+						found[e]++
+						rep := ev.Replay{Property: prop, Test: "TestKeyGenSign", Key: "keyboundary/" + e, Message: "regress input: reference key generation meets " + e}
+						rep.Case, _ = json.Marshal(&ksCase{Seed: seed, Msgs: []pu.HB{pu.DetBytes(uint64(i)+1, 33)}})
+						b, _ := json.MarshalIndent(rep, "", " ")
+						os.WriteFile(filepath.Join(dir, fmt.Sprintf("keyboundary-%s-%06d.json", sanitize(e), i)), b, 0o644)
+					}
+					mu.Unlock()
+				}
+			}
+		}(w)
+	}
+	wg.Wait()
+	t.Logf("hunt result: %v", found)
 }
